@@ -31,7 +31,7 @@ func init() {
 		return 0
 	}
 	propMetas["C19"] = propMeta{Level: "exploration",
-		Rule:        "one case = a pair of twin worlds executed from one tape (same schedule, faults, clock/UUID/random streams) that differ only in the path and display of every contact/message/call URN (same scheme and country); compared per engine call: outcome, path taken, events minus fields that are URNs by contract, a full recursive walk of Session.CurrentContext() rendered to text/format/JSON, and ~70 templates over it; non-trivial = >= 2 engine calls; distinct = distinct behaviour signature. Every 4th pair runs WITHOUT the policy and must differ somewhere (built-in sensitivity check)",
+		Rule:        "one case = a pair of twin worlds executed from one tape (same schedule, faults, clock/UUID/random streams) that differ only in the path and display of every contact/message/call URN (same scheme and country); compared per engine call: outcome, path taken, events minus fields that are URNs by contract, a full recursive walk of Session.CurrentContext() rendered to text/format/JSON, and ~70 templates over it; non-trivial = >= 2 engine calls; distinct = distinct behaviour signature. Every 4th pair runs WITHOUT the policy (must differ somewhere - counted - and must show URN paths - judged); every 4th pair starts without the policy and has it switched on by an environment change while sessions wait (C19f: sprints under the policy that start from equal projected state and input must produce equal outputs)",
 		Assumptions: []string{"fields that carry URNs by contract (msg.urn, contact_urns_changed.urns, embedded contacts and run summaries, airtime sender/recipient) are projected away by an explicit list", "simulated remote servers answer as a function of (fault plan, request ordinal, host+path with digits masked), never of request contents, so both twins see the same world"}}
 }
 
